@@ -109,6 +109,13 @@ Theorem T15_5_redundant_operands_values :
 Proof. exact redundant_values_sound. Qed.
 Print Assumptions T15_5_redundant_operands_values.
 
+(* T15.6 (hunt C15-5 / C06-1) a special method of a constant is never evaluated: its value may depend on
+   the hash seed or the platform ('abc'.__hash__(), (1).__sizeof__()). *)
+Theorem T15_6_special_methods_unknown :
+  forall r m args kws, is_dunder m = true -> lv (EMeth r m args kws) = LUnknown.
+Proof. exact dunder_unknown. Qed.
+Print Assumptions T15_6_special_methods_unknown.
+
 (* non-trivial inputs meeting the hypotheses *)
 Example ex_dead_if : dead_if (SIf (ECmp (EConst (VInt 1)) [(CLt, EConst (VInt 2))]) [SAtom 1] [SAtom 2]) = Some [SAtom 1].
 Proof. vm_compute. reflexivity. Qed.
